@@ -279,6 +279,23 @@ def build_portable_encoding(log=sys.stderr):
     return obj
 
 
+def build_gcc_harness_object(rel, log=sys.stderr):
+    """A C file of the harness (relative to /verif) compiled by gcc -O2 against /repo's headers."""
+    src = os.path.join(ROOT, rel)
+    flags = ["-g", "-O2", "-fPIC", "-DNDEBUG", "-std=gnu99", "-w"] + DEFINES
+    key = sha("gcc-h " + " ".join(flags), file_digest(src), header_digest())
+    obj = os.path.join(BUILD, "obj", "gcch-%s-%s.o" % (os.path.basename(rel).replace(".c", ""), key))
+    if not os.path.exists(obj):
+        os.makedirs(os.path.dirname(obj), exist_ok=True)
+        rc, o = _compile_one((["gcc"] + flags + includes() + ["-c", src], obj))
+        if rc != 0:
+            log.write(o)
+            raise SystemExit("BUILD-ERROR: gcc build of %s failed" % rel)
+    else:
+        _touch(obj)
+    return obj
+
+
 def build_gcc_object(rel, log=sys.stderr):
     """One library source compiled by gcc -O2 (no sanitizer), to be linked in front of the clang-built archive.
 
@@ -323,6 +340,8 @@ def build_target(t, log=sys.stderr):
         extra.append(build_portable_encoding(log))
     for rel in t.get("gcc_objects", []):
         extra.append(build_gcc_object(rel, log))
+    for rel in t.get("gcc_harness_objects", []):
+        extra.append(build_gcc_harness_object(rel, log))
     flags = [CXX, "-std=gnu++17", "-w"] + fl["cxx"] + t.get("cxxflags", []) + DEFINES + includes() + \
             ["-I" + os.path.join(ROOT, "engine"), "-I" + REPO]
     ld = list(fl["ld"])
